@@ -44,8 +44,9 @@ type c17World struct {
 
 type c17Conn struct {
 	driver.Conn
-	id int
-	w  *c17World
+	id     int
+	w      *c17World
+	closed bool
 }
 
 type c17Result struct{}
@@ -54,6 +55,11 @@ func (c17Result) LastInsertId() (int64, error) { return 0, nil }
 func (c17Result) RowsAffected() (int64, error) { return 1, nil }
 
 func (c *c17Conn) ExecContext(ctx context.Context, query string, args []driver.NamedValue) (driver.Result, error) {
+	if c.closed {
+		// nothing reaches the database any more
+		c.w.events = append(c.w.events, c17Event{c.id, "ON-CLOSED-CONN " + query, false})
+		return nil, driver.ErrBadConn
+	}
 	k := c.w.cmds
 	c.w.cmds++
 	if k == c.w.failAt {
@@ -64,7 +70,7 @@ func (c *c17Conn) ExecContext(ctx context.Context, query string, args []driver.N
 	c.w.events = append(c.w.events, c17Event{c.id, query, true})
 	return c17Result{}, nil
 }
-func (c *c17Conn) Close() error { return nil }
+func (c *c17Conn) Close() error { c.closed = true; return nil }
 
 // like go-sql-driver/mysql, the stub driver connection supports session reset
 func (c *c17Conn) ResetSession(ctx context.Context) error { return nil }
@@ -259,6 +265,13 @@ func VerifC17Branch() {
 		m2 = &XAResourceManager{resourceCache: sync.Map{}, basic: datasource.NewBasicSourceManager(), rmRemoting: rm.GetRMRemotingInstance()}
 		m2.resourceCache.Store("res", res2)
 	}
+	// between the phases database/sql may close the pooled connection (idle limit, life
+	// time): the branch is prepared on it, whether or not this server version needs the
+	// connection to be held
+	if vrt.Bool("pool.closes.the.connection.between.phases") {
+		vrt.Reach("xa/pool-closed-the-connection")
+		_ = c.Close()
+	}
 	before := len(w.events)
 	w.failAt = -1
 	// the phase-two command itself may fail in the database
@@ -275,6 +288,7 @@ func VerifC17Branch() {
 		st, err2 = m2.BranchRollback(ctx, br)
 	}
 	vrt.Reach("xa/phase-two-done")
+	vrt.Assert(w.count("ON-CLOSED-CONN", false) == 0, "xa/no-command-on-a-closed-connection")
 	vrt.Assert(w.legal(), "xa/phase-two-commands-follow-the-xa-state-machine")
 	if p2fails {
 		vrt.Reach("xa/phase-two-command-failed")
